@@ -1,13 +1,13 @@
 #!/bin/bash
 # usage: try_seeded.sh <patch.diff> <PROP> [more props]   apply a change to /repo, run quick checks, restore /repo
 cd ${VERIF_ROOT:-/verif} || exit 2
-if [ -n "$(git -C /repo status --porcelain)" ]; then echo "repo dirty"; exit 2; fi
+if [ -n "$(git -C ${REPO_ROOT:-/repo} status --porcelain)" ]; then echo "repo dirty"; exit 2; fi
 PATCH=$1; shift
-git -C /repo apply "$PATCH" || { echo "APPLY-FAILED"; exit 2; }
+git -C ${REPO_ROOT:-/repo} apply "$PATCH" || { echo "APPLY-FAILED"; exit 2; }
 for P in "$@"; do
   OUT=$(./check $P ${TIER:-quick} 2>&1); rc=$?
   SIGS=$(echo "$OUT" | grep -E "axsim: violation|further distinct" | sed -E 's/axsim: violation //; s/axsim: further distinct signatures not minimised: //; s/ ::.*//; s/ \([0-9]+ runs?\)//' | head -5 | tr '\n' ';')
   echo "$P exit=$rc $SIGS"
   [ $rc -eq 2 ] && echo "$OUT" | tail -5
 done
-git -C /repo checkout -- . ; git -C /repo clean -fdq src tests 2>/dev/null
+git -C ${REPO_ROOT:-/repo} checkout -- . ; git -C ${REPO_ROOT:-/repo} clean -fdq src tests 2>/dev/null
